@@ -24,6 +24,16 @@ impl Shell {
     pub fn in_function(&self) -> (r: bool) ensures r == self.in_fn() { unimplemented!() }
     #[verifier::external_body]
     pub fn in_sourced_script(&self) -> (r: bool) ensures r == self.in_src() { unimplemented!() }
+    // C16: the EXIT trap is run by the front end, once, after the program's result is known (Shell::on_exit; U17).  A builtin that asks
+    // the shell to leave must not run it as well: ghost count of on_exit runs
+    pub uninterp spec fn on_exit_runs(&self) -> nat;
+    #[verifier::external_body]
+    pub fn on_exit(&mut self) -> (r: Result<(), Error>)
+        ensures final(self).on_exit_runs() == old(self).on_exit_runs() + 1 { unimplemented!() }
+    #[verifier::external_body] pub fn is_subshell(&self) -> bool { unimplemented!() }
+    #[verifier::external_body]
+    pub fn set_last_exit_status(&mut self, status: u8)
+        ensures final(self).status() == status, final(self).on_exit_runs() == old(self).on_exit_runs(), final(self).in_fn() == old(self).in_fn(), final(self).in_src() == old(self).in_src(), final(self).loop_depth() == old(self).loop_depth() { unimplemented!() }
 }
 // projection of brush-core commands.rs ExecutionContext (field `shell` checked against the source)
 pub struct ExecutionContext<'a> { pub shell: &'a mut Shell, pub rest: CtxRest }
